@@ -165,13 +165,69 @@ def two_run_cases(ctx: Ctx, n):
     ctx.coverage["correspondence"]["second_runs"] = {"cases": len(idx), "mismatches": len(bad)}
 
 
+# ----------------------------------------------------------------------------- C: nested == snapshots: two runs vs one (Model/TreeAssign.v: tree_two_runs_compose)
+def run_tree_orders(c):
+    """fix and update approved one after the other (both orders) and together, on a nested list / tuple snapshot"""
+    from .. import treeassign as ta
+    src = ta.HDR + f"def test_a():\n    assert {c['new']!r} == snapshot({ta.render_tree(c['tree'])})\n"
+    out = {}
+    for name, seq in (("together", [("fix", "update")]), ("fix_update", [("fix",), ("update",)]), ("update_fix", [("update",), ("fix",)])):
+        cur = src.encode()
+        for fl in seq:
+            r = driver.run_inproc({"test_a.py": cur}, fl, block_black=True)
+            if r["session_exc"]:
+                return {"error": f"{name}: {r['session_exc']}"}
+            cur = r["files"]["test_a.py"]
+        try:
+            out[name] = norm_ast(cur.decode())
+        except SyntaxError as e:
+            return {"error": f"{name}: invalid file {e}"}
+        out[name + "_src"] = cur.decode()
+    return out
+
+
+# ----------------------------------------------------------------------------- D: real sessions over several files
+SESSION_FILES = {
+    "test_a.py": "from inline_snapshot import snapshot\nR = []\n\n\ndef test_a1():\n    R.append(5 <= snapshot(8))\n\n\ndef test_a2():\n    R.append(3 == snapshot(4))\n",
+    "test_b.py": "from inline_snapshot import snapshot\nR = []\n\n\ndef test_b1():\n    R.append(7 == snapshot(6))\n\n\ndef test_b2():\n    R.append('x' == snapshot('''x'''))\n",
+    "test_c.py": "from inline_snapshot import snapshot\nR = []\n\n\ndef test_c1():\n    R.append(1 in snapshot([1, 2]))\n    R.append(9 == snapshot())\n",
+}
+
+
+def run_session_orders(_):
+    """the categories pending in a project of three files approved together in one real pytest session vs one session per
+    category in every order"""
+    import shutil
+
+    def sessions(seq):
+        d = driver.scratch_dir()
+        try:
+            driver.write_project(d, SESSION_FILES)
+            for fl in seq:
+                r = driver.run_pytest(d, ["--inline-snapshot=" + ",".join(fl)])
+                if r["rc"] not in (0, 1):
+                    return {"error": f"session {fl}: exit status {r['rc']}: {(r['stdout'] + r['stderr'])[-400:]}"}
+            return {n: ast.dump(ast.parse((d / n).read_text())) for n in SESSION_FILES}
+        finally:
+            shutil.rmtree(d, ignore_errors=True)
+    P = ("create", "fix", "trim", "update")
+    orders = [tuple(o) for o in itertools.permutations(P)]
+    random.Random(7).shuffle(orders)
+    seqs = [[P]] + [[(c,) for c in o] for o in orders[:7]]
+    from ..core import tmap
+    res = tmap(sessions, seqs)
+    return {"together": res[0], "orders": list(zip(orders[:7], res[1:]))}
+
+
 def run(ctx: Ctx):
     ctx.coverage["rule"] = (
         "A: single call sites run with F1, then with F2 on the file the first run wrote, and once with F1 u F2: equal final values; the second run vs Model/SnapOps.v "
         "in Coq from the source really written (canonicity of every leaf read back from the file). B: programs with 2-5 snapshot sites whose comparisons are recorded, not asserted (so the observations do not depend on the approved flags), each site in its own "
         "test; P = categories pending with no flags; for every program with |P| >= 2: all |P|! orders (quick: at most 8 for |P| = 4) of single-category runs vs one run with P "
         "approved; equality of ast.dump of the final files; with and without black; plus programs of dataclass constructor calls whose previous text holds explicit default-valued "
-        "keyword arguments (update removes them) next to wrong / missing ones (fix). non-trivial = |P| >= 2; distinct = distinct programs")
+        "keyword arguments (update removes them) next to wrong / missing ones (fix). C: nested list / tuple == snapshots: fix,update together vs fix then update vs update then fix "
+        "(the composition law proved for Model/TreeAssign.v). D: real pytest sessions on a project of three test files: all pending categories in one session vs one "
+        "session per category in 7 orders. non-trivial = |P| >= 2; distinct = distinct programs")
     proof_step(ctx)
     two_run_cases(ctx, 500 if not ctx.thorough else 5000)
     n = 150 if not ctx.thorough else 1500
@@ -191,6 +247,30 @@ def run(ctx: Ctx):
         elif "diff" in o:
             ctx.report("C09 oracle: " + o["diff"], {"kind": "prog", "source": p["source"], "setup": p["setup"], "seed": p["seed"], "order": o["order"], "got": o["got"][-1500:], "want": o["want"][-1500:]},
                        tag=classify(p, o))
+    # C
+    from .. import treeassign as ta
+    nt = 150 if not ctx.thorough else 1500
+    tcases = [ta.gen_case(ctx.rng) for _ in range(nt)]
+    for c, o in zip(tcases, pmap(run_tree_orders, tcases, chunksize=4)):
+        ctx.count(("tree-orders", repr(c)), ta.tree_value(c["tree"]) != c["new"])
+        if "error" in o:
+            ctx.report("C09 (nested snapshot): " + o["error"], {"kind": "tree", "tree": c["tree"], "new_repr": repr(c["new"])})
+        elif not (o["together"] == o["fix_update"] == o["update_fix"]):
+            ctx.report(f"C09 oracle: nested snapshot {ta.render_tree(c['tree'])} observed {c['new']!r}: fix,update together / fix then update / update then fix give different programs: "
+                       f"{o['together_src'][-80:]!r} / {o['fix_update_src'][-80:]!r} / {o['update_fix_src'][-80:]!r}", {"kind": "tree", "tree": c["tree"], "new_repr": repr(c["new"])})
+    ctx.coverage["oracle"]["nested_snapshots_three_orders"] = nt
+    # D
+    so = run_session_orders(None)
+    ctx.count(("sessions",), True, n=8)
+    if "error" in so["together"]:
+        ctx.report("C09 (sessions): " + so["together"]["error"], {"kind": "sessions"})
+    for order, r in so["orders"]:
+        if "error" in r:
+            ctx.report("C09 (sessions): " + r["error"], {"kind": "sessions"})
+        elif r != so["together"]:
+            diff = [n for n in r if r[n] != so["together"].get(n)]
+            ctx.report(f"C09 oracle: real sessions over three files: approving {order} one session at a time differs from one session with all of them in {diff}", {"kind": "sessions", "order": order})
+    ctx.coverage["oracle"]["multi_file_session_orders"] = len(so["orders"])
     ctx.coverage["oracle"]["programs_with_two_or_more_pending_categories"] = k2
     ctx.coverage["oracle"]["orders_checked"] = sum(o.get("orders", 0) for o in outs)
     i = next((i for i, o in enumerate(outs) if len(o.get("pending", [])) >= 2), 0)
@@ -199,6 +279,15 @@ def run(ctx: Ctx):
 
 def replay(ctx: Ctx, data):
     c = data["case"]
+    if c.get("kind") == "sessions":
+        so = run_session_orders(None)
+        return "error" not in so["together"] and all("error" not in r and r == so["together"] for _, r in so["orders"])
+    if c.get("kind") == "tree":
+        def tt(t):
+            return tuple(t) if t[0] in ("leaf", "unm") else (t[0], [tt(x) for x in t[1]])
+        o = run_tree_orders({"tree": tt(c["tree"]), "new": eval(c["new_repr"])})
+        print(o)
+        return "error" not in o and o["together"] == o["fix_update"] == o["update_fix"]
     o = run_orders({"source": c["source"], "setup": c["setup"], "seed": c["seed"], "max_orders": 24})
     print(o)
     return "error" not in o and "diff" not in o
